@@ -54,7 +54,7 @@ func genFaults(t *rapid.T, label string) []memnet.Fault {
 	n := rapid.IntRange(0, 4).Draw(t, label+"n")
 	var fs []memnet.Fault
 	for i := 0; i < n; i++ {
-		fs = append(fs, memnet.Fault{At: rapid.IntRange(0, 24).Draw(t, label+"at"), Kind: rapid.SampledFrom([]string{"drop", "dup", "dup", "hold", "replay"}).Draw(t, label+"kind"), Arg: rapid.IntRange(1, 3).Draw(t, label+"arg")})
+		fs = append(fs, memnet.Fault{At: rapid.IntRange(0, 24).Draw(t, label+"at"), Kind: rapid.SampledFrom([]string{"drop", "dup", "dup", "hold", "replay", "alien"}).Draw(t, label+"kind"), Arg: rapid.IntRange(1, 3).Draw(t, label+"arg")})
 	}
 	return fs
 }
